@@ -8,6 +8,8 @@ package c10
 import (
 	"context"
 	"fmt"
+	"net/url"
+	"strconv"
 	"strings"
 	"sync"
 	"testing"
@@ -29,7 +31,14 @@ type SStep struct {
 
 type SShot struct {
 	BadReq int    `json:"bad_request"` // index into the expanded request list that gets the bad answer, -1 none
-	Bad    string `json:"bad"`         // status500 | no_marker
+	Bad    string `json:"bad"`         // status500 | no_marker | redirect
+	// Bad == "redirect": the request is answered (same body) with one of the redirect statuses 301/302/303/307/308 and a
+	// Location header that is absent / empty / well-formed / not parsable as a URL (kinds as in TestHTTPSamples). The gun
+	// does not follow redirects (`redirect` is false by default): the step was executed and answered, its sample carries
+	// the status received; a status assertion rejects it like any other status that is not 200.
+	Status   int    `json:"status,omitempty"`
+	LocKind  string `json:"location_kind,omitempty"`
+	Location string `json:"location,omitempty"`
 }
 
 type ScenCase struct {
@@ -52,7 +61,12 @@ func genScen(t *rapid.T) ScenCase {
 		s := SShot{BadReq: -1}
 		if rapid.IntRange(0, 2).Draw(t, "bad") != 0 {
 			s.BadReq = rapid.IntRange(0, total-1).Draw(t, "badReq")
-			s.Bad = rapid.SampledFrom([]string{"status500", "no_marker"}).Draw(t, "badKind")
+			s.Bad = rapid.SampledFrom([]string{"status500", "no_marker", "redirect"}).Draw(t, "badKind")
+			if s.Bad == "redirect" {
+				e := Entry{Status: rapid.SampledFrom(redirectStatuses).Draw(t, "statusRedirect")}
+				genLocation(t, &e)
+				s.Status, s.LocKind, s.Location = e.Status, e.LocKind, e.Location
+			}
 		}
 		c.Shots = append(c.Shots, s)
 	}
@@ -98,7 +112,7 @@ func (c ScenCase) yaml() string {
 func rejects(post, bad string) bool {
 	switch post {
 	case "assert_status", "jsonpath_then_assert":
-		return bad == "status500"
+		return bad == "status500" || bad == "redirect"
 	case "assert_body", "assert_then_jsonpath", "assert_size_and_body":
 		return bad == "no_marker"
 	}
@@ -131,6 +145,11 @@ func checkScen(c ScenCase, o *vf.Obs) error {
 		if s.BadReq == pos {
 			if s.Bad == "status500" {
 				resp = target.Resp{Status: 500, Header: good.Header, Body: good.Body}
+			} else if s.Bad == "redirect" {
+				resp = target.Resp{Status: s.Status, Header: map[string]string{"Content-Type": "application/json"}, Body: good.Body}
+				if s.LocKind != "" {
+					resp.Header["Location"] = s.Location
+				}
 			} else {
 				resp = target.Resp{Status: 200, Header: good.Header, Body: []byte(`{"key": "other"}`)}
 			}
@@ -191,6 +210,7 @@ func checkScen(c ScenCase, o *vf.Obs) error {
 	// ---- expected sample stream ----
 	var want []string
 	anyFail, failNotLast := false, false
+	redirects := map[string]bool{} // what became of the steps answered with a redirect status (classes, once per case)
 	for _, s := range c.Shots {
 		for p, st := range expanded {
 			proto := "200"
@@ -199,7 +219,24 @@ func checkScen(c ScenCase, o *vf.Obs) error {
 				if s.Bad == "status500" {
 					proto = "500"
 				}
+				if s.Bad == "redirect" {
+					proto = strconv.Itoa(s.Status)
+				}
 				failed = rejects(c.Steps[st].Post, s.Bad)
+				if s.Bad == "redirect" {
+					_, perr := url.Parse(s.Location)
+					unparsable := s.LocKind != "" && perr != nil
+					redirects[map[bool]string{true: "rejected_by_status_assertion", false: "not_rejected"}[failed]] = true
+					if unparsable {
+						redirects["location_malformed"] = true
+						redirects[map[bool]string{true: "location_malformed_rejected_by_status_assertion", false: "location_malformed_not_rejected"}[failed]] = true
+						if !failed && p < len(expanded)-1 {
+							redirects["location_malformed_not_rejected_before_last_step"] = true
+						}
+					} else {
+						redirects["location_"+map[string]string{"": "absent", "empty": "absent", "wellformed": "wellformed"}[s.LocKind]] = true
+					}
+				}
 			}
 			if failed {
 				proto = "FAILED"
@@ -229,9 +266,13 @@ func checkScen(c ScenCase, o *vf.Obs) error {
 		o.Class("post_" + s.Post)
 		o.ClassIf(s.Count > 1, "step_multiplicity")
 	}
+	o.ClassIf(len(redirects) > 0, "step_answered_with_redirect")
+	for k := range redirects {
+		o.Class("step_answered_with_redirect_" + k)
+	}
 	o.ClassIf(anyFail, "step_failed_by_postprocessor")
 	o.ClassIf(failNotLast, "failure_before_last_step")
-	if anyFail {
+	if anyFail || len(redirects) > 0 {
 		o.NonTrivial()
 	}
 	return nil
